@@ -111,7 +111,7 @@ CHECKS.update({
         note=SHELL_NOTE, technique="Lean 4 proof (simulation between runs with different budgets, induction on fuel) + bit-exact replay + re-run differential",
         design_ref="DESIGN.md §4 C07"),
     "C08": dict(
-        text="Theorems over Model/Cauchy.lean: order_sorted / order_positive / order_nodup (breakpoints "
+        text="firstLocalMin_unique / gcp_is_the_first_local_min (the two properties determine t*), cauchy_unconstrained_step (x - (g.g/g.Bg) g when no bound is met), cauchy_point_units / cauchy_units_nofactor (the Cauchy point of the same problem in other units is the rescaled point). Theorems over Model/Cauchy.lean: order_sorted / order_positive / order_nodup (breakpoints "
              "examined in non-decreasing order, only positive ones, each once — for any arithmetic), gcp_in_box (the returned point is in the box, any "
              "arithmetic), gcp_on_projected_path; gcp_first_local_min (ordered field, Props/C08Min): the point returned is P(x - t* g) where the model value "
              "phi(t) = m(P(x - t g) - x) is STRICTLY DECREASING on [0, t*] and phi(t*) <= phi(t) on a right neighbourhood, the auxiliary vector is "
@@ -125,7 +125,7 @@ CHECKS.update({
         note=KERNEL_NOTE, technique="Lean 4 proof (loop invariant of the breakpoint search: derivative bookkeeping by Mathlib bilinear algebra, piecewise-linear path, strict decrease; merge-sort order, box invariants) + model/implementation differential on enumerated activity patterns + brute-force first-local-minimiser oracle",
         design_ref="DESIGN.md §4 C08"),
     "C09": dict(
-        text="Theorems over Model/Subspace.lean: none_free, xbar_in_box and active_fixed (any arithmetic), alpha_star_feasible (ordered field: every step "
+        text="subspace_point_units / subspace_units_nofactor / iteration_units / iteration_units_nofloor (the subspace point, and the composed iteration on a stored history, of the same problem in other units are the rescaled points). Theorems over Model/Subspace.lean: none_free, xbar_in_box and active_fixed (any arithmetic), alpha_star_feasible (ordered field: every step "
              "in [0, alpha*] keeps the point in the box, alpha* <= 1), smw_direction (Mathlib matrices, any field: the direction computed through the small "
              "2m x 2m system solves the reduced Newton system (theta I - W M W^T) d = -r, under M M^-1 = 1); Props/C09Model (ordered field): subspace_no_increase (a Newton step on the free variables truncated by 0 <= alpha <= 1 does not increase the model), descent_of_decrease, direction_descent, and code_direction_descent: for the direction the code computes (small system, selection matrix of the free set: newton_of_reduced, reduced_bmat) the search direction after a Cauchy step with strict model decrease satisfies g.d < 0; masked_smw (the full-dimension masked form the source computes) and, about the executable model subspaceMin itself (Props/C09Run, via a list <-> Fin n bridge): subspace_newton_point (x_bar = x_cp + alpha u exactly, 0 <= alpha <= 1, in the box, u zero on the variables on a bound and Newton on the free ones), subspace_model_no_increase, subspace_direction_descent — under SubCtx (exact middle-matrix product and small solve, c = W^T(x_cp - x) as C08 proves), witnessed by a concrete instance; gauss_solves / gauss_unique / regular_pivots (Props/C09Solve + Proofs/Gauss, GaussBridge): the model's elimination with partial pivoting returns THE solution whenever no pivot vanishes, whatever row is picked, and no pivot vanishes when the matrix is injective; subspace_newton_point_solved / subspace_model_no_increase_solved / subspace_direction_descent_solved (under the computable pivot condition SubCtxP) and subspace_newton_point_pd (sizes, Mm M^-1 = 1, c = W^T(x_cp - x) and a positive definite model only: the reduced matrix N is then injective) carry no assumption on any solve. Numerical equality with the dense Newton solve, "
              "model decrease and descent are decided by the differential (Lean Float model vs subspacemin.py vs dense solve) over every free/active partition "
@@ -134,7 +134,7 @@ CHECKS.update({
         note=KERNEL_NOTE, technique="Lean 4 proof (Sherman-Morrison-Woodbury identity, convexity of the model along the Newton step, box invariants) + model/implementation/dense-oracle differential over enumerated partitions",
         design_ref="DESIGN.md §4 C09"),
     "C10": dict(
-        text="Theorems: bookkeeping for arbitrary candidate sequences, any arithmetic (reject_is_noop, accept_appends_and_drops_oldest, mem_le_maxcor(_seq), "
+        text="bfgs_units / bfgsChain_units (the BFGS matrix of a history in other units is (a/b^2) times the original). Theorems: bookkeeping for arbitrary candidate sequences, any arithmetic (reject_is_noop, accept_appends_and_drops_oldest, mem_le_maxcor(_seq), "
              "newest_pair_curv); algebra over any ordered field (bfgs_symm, bfgs_secant, bfgs_posdef, bfgs_chain_posdef, scaled_identity_spd); compact_eq_bfgs / compact_eq_bfgs_of_curvature (Byrd-Nocedal-Schnabel, Props/C10Compact): for ANY list of "
              "pairs with positive curvature, theta I - W N^-1 W^T with the explicitly constructed inverse of the middle matrix IS the dense BFGS recursion from "
              "theta I (induction on the pairs over a recursively extended index type), compact_secant; invM_factorisation / bmv_is_product (Props/C10Factor: the product of the two triangular factors the code builds from sqrt(D), 1/sqrt(D), L and the Cholesky factor J IS [[-D, L^T],[L, theta S^T S]], so two exact triangular solves return M v). The floating-point computation (triangular factors in "
@@ -144,7 +144,7 @@ CHECKS.update({
         note=KERNEL_NOTE, technique="Lean 4 proof (list bookkeeping; BFGS update SPD/secant and compact = dense recursion by Mathlib matrix algebra, induction on the pair list) + history differential (implementation vs compact model vs dense recursion)",
         design_ref="DESIGN.md §4 C10"),
     "C11": dict(
-        text="Theorems over the line-search model with DCSRCH an arbitrary oracle and any arithmetic: ls_points_in_box, ls_evals_le_cap, ls_result_downhill; "
+        text="C14 display_evaluates_nothing (regenerated table: display code calls nothing that can reach a user callable: the evaluation cap does not depend on the display level). Theorems over the line-search model with DCSRCH an arbitrary oracle and any arithmetic: ls_points_in_box, ls_evals_le_cap, ls_result_downhill; "
              "ordered field: maxStep_feasible, ls_trials_on_ray; dcsrch_steps_in_range (any arithmetic): the Lean port of SciPy's DCSRCH._iterate + dcstep "
              "(Model/Dcsrch.lean, compared bit for bit with every recorded stepper call) proposes only steps in [0, stpmax]; ls_result_in_range / ls_steps_in_range (any arithmetic): with that stepper plugged into the driver's line search the returned step and every evaluated step lie in [0, max_allowed_steplength] (invariant of the line-search loop over the stepper's invariant), ls_evals_on_ray (ordered field: every evaluation is at a feasible x + a d, a <= maxstep). The model's max_allowed_steplength is compared bit for bit with the bound the real code hands to DCSRCH. Tied by replaying stand-alone line searches of the real code (recorded DCSRCH answers) through the model bit "
              "for bit; every real trial point, count and returned step monitored, incl. caps 1..3 and maxfun about to be exhausted.",
@@ -153,7 +153,7 @@ CHECKS.update({
     "C12": dict(
         text="PARTIAL by proof, completed by differential. Theorems: the default constants and the theta / first-step formulas are the reference ones (tables "
              "regenerated from main.py, linesearch.py, bfgsmats.py on every run by translate/defaults2lean.py and checked by kernel evaluation), theta_model, "
-             "iter0_step_cap; inv_chain_inverts_bfgs_chain, newton_point_is_two_loop, complete_iteration_is_lbfgs, run_iteration_is_lbfgs (at every loop-head state a fresh run of the "
+             "iter0_step_cap; inv_chain_inverts_bfgs_chain, newton_point_is_two_loop, complete_iteration_is_lbfgs, complete_iteration_is_lbfgs_data (hypotheses on the data only), run_iteration_is_lbfgs (at every loop-head state a fresh run of the "
              "complete model reaches, while no bound interferes and the floor on f'' is inactive, the iteration aims its line search at the L-BFGS quasi-Newton point x - twoLoop(I/theta, stored pairs)(g): "
              "the inverse-update chain inverts the direct-update chain the solver's matrix is, and the model's subspace step is the full Newton step); "
              "the deviations are theorems elsewhere (C03/C11). That the evaluation-point sequence coincides with SciPy's L-BFGS-B is decided "
@@ -171,7 +171,7 @@ CHECKS.update({
              "arbitrary rewrites); identity runs compared bit for bit with runs without the hook; next iterate compared with a restart on the new objective.",
         note=SHELL_NOTE, technique="Lean 4 proof (structural induction on the filter) + bit-exact replay + switch/restart differential", design_ref="DESIGN.md §4 C13"),
     "C14": dict(
-        text="Theorems: interleaving_independent / schedule_irrelevant / nested_independent (for machines over disjoint states every schedule of any length ends "
+        text="display_evaluates_nothing (display code calls nothing that can reach a user callable). Theorems: interleaving_independent / schedule_irrelevant / nested_independent (for machines over disjoint states every schedule of any length ends "
              "where the solo runs end); that the package's runs are such machines is read off the source on every run by translate/state2lean.py and checked "
              "by kernel evaluation: no_shared_mutable_state, no_mutable_default_written, display_is_read_only, inputs_not_written; run_is_a_function. What static tables cannot "
              "exclude (writes through aliases of the caller's arrays, state in C) is decided by search: frozen read-only inputs and checkpoints with snapshots, "
@@ -189,7 +189,7 @@ CHECKS.update({
         technique="Lean 4 proof (case analysis of the step adjustment over an ordered field; clip invariant for any arithmetic) + bit-exact model/implementation differential of stencils and gradients + run search",
         design_ref="DESIGN.md §4 C16"),
     "C17": dict(
-        text="Theorems: scaler_called_once, scaler_sees_unscaled, scaled_values, target_on_unscaled over the driver model; scaler_equivalence: the run with a "
+        text="C09 iteration_objective_scale (kernel level, exact arithmetic: multiplying the gradient and the stored gradients by any a > 0 leaves the point the iteration aims at unchanged). Theorems: scaler_called_once, scaler_sees_unscaled, scaled_values, target_on_unscaled over the driver model; scaler_equivalence: the run with a "
              "scaler returning s and the run without scaler on s*f, s*grad f return the same result (whole-driver simulation; callable gradient, no target, "
              "fresh run; laws a*1 = a and not a < a); fd_scaling_linear (ordered field: FD(s f) = s FD(f) for the model of the differencing). The same equivalence is checked on pairs of real runs (f with scaler s vs s*f without) compared bit for bit on results and evaluation points, the "
              "scaler run replayed through the model.",
